@@ -161,13 +161,14 @@ def datum_of(T, U, s, unclosed, pretty=False):
         U.indent(root)
     if unclosed:
         body = U.tostring_unclosed_elements(root).decode("utf_8")
-        head, tail = "<OFX>" + ("\n  " if pretty else "") + "<MEMO>", "</OFX>"
+        end = "</OFX>"
     else:
         body = ET.tostring(root, encoding="utf_8", method="html").decode("utf_8")
-        head, tail = "<OFX>" + ("\n  " if pretty else "") + "<MEMO>", "</MEMO>" + ("\n" if pretty else "") + "</OFX>"
-    if not (body.startswith(head) and body.endswith(tail)):
+        end = "</MEMO>"
+    i, j = body.find("<MEMO>"), body.rfind(end)
+    if i < 0 or j < i + 6 or not body.startswith("<OFX>"):
         return None, body
-    d = body[len(head):len(body) - len(tail)]
+    d = body[i + 6:j]
     if pretty and unclosed and d.endswith("\n"):
         d = d[:-1]
     return d, body
